@@ -37,7 +37,7 @@ TECHNIQUE = 'Hypothesis generated sources/match sets, HTML re-parsing oracle (ro
 ALLOWED_TAGS = {'a', 'h3', 'table', 'tr', 'td', 'span', 'br'}
 HOSTILE = ['<', '>', '&', '"', '"><script>alert(1)</script>', '</span>', '<br>', '&amp;', '&lt;', "'", ' ', 'x', 'Fehler', 'é']
 SRC = ['a', 'b', 'Wort', ' ', ' ', '\n', '\n', '\t', '<', '>', '&', '"', "'", '\\', '{', '}', '%', '&amp;', '<b>', '</td>', '\\textbf', 'é',
-       'x' * 40, '\n\n', '<br>', '  ']
+       'x' * 40, '\n\n', '<br>', '  ', '\x0c', '\u2028', '\x0b', '\x85', '\x1c', '\\%', '\\&', '\\subsubsection']
 src_s = st.lists(st.sampled_from(SRC), min_size=1, max_size=30).map(''.join)
 msg_s = st.lists(st.sampled_from(HOSTILE), min_size=1, max_size=5).map(''.join)
 match_s = st.tuples(st.integers(0, 10 ** 6), st.integers(0, 12), msg_s, st.lists(msg_s, max_size=2), msg_s, st.integers(0, 3), st.integers(0, 6),
